@@ -170,6 +170,8 @@ def run_impl(mod, case):
         raise HarnessError("no implementation adapter for op " + case.op)
     try:
         r = fn(*case.args)
+        if isinstance(r, str) and r.startswith("\x00"):
+            return r[1:]            # adapter supplies the complete reply (e.g. a recorded history observation)
         return "ok" if r is None or r == "" else "ok " + r
     except HarnessError:
         raise
